@@ -170,3 +170,94 @@ Proof.
   unfold proxy_label_values. apply in_merge_slices. exists (tsdb_label_values e drop ms label stored).
   split; [apply (in_map (fun e0 => tsdb_label_values e0 drop ms label stored)); exact He|]. eapply values_cover_store; eauto. apply Hv. unfold queried in He. apply filter_In in He. tauto.
 Qed.
+
+(* ---- the object-storage store gateway ---- *)
+(* stored labels have non-empty values (a TSDB invariant) *)
+Definition stored_vals_ok (stored : list labels) : Prop :=
+  forall sl n v, In sl stored -> lfind sl n = Some v -> is_empty_str v = false.
+
+Lemma bucket_label_cases blocks drop ms l n v :
+  (forall b, In b blocks -> valid_ext (fst b)) ->
+  In l (bucket_series_labels blocks drop ms) -> lfind l n = Some v ->
+  exists ext stored kept sl, In (ext, stored) blocks /\ ext_loop mname mmatch ms ext = Some kept /\ kept <> []
+    /\ In sl stored /\ selected kept sl = true /\ l = present_bucket ext drop sl /\ in_drop drop n = false
+    /\ (lfind ext n = Some v \/ (lfind ext n = None /\ lfind sl n = Some v)).
+Proof.
+  intros Hv H Hf. unfold bucket_series_labels in H. apply in_concat in H as [x [Hx Hl]].
+  apply in_map_iff in Hx as [[ext stored] [E Hb]]. subst x. unfold block_series_labels in Hl. cbn [fst snd] in Hl.
+  destruct (ext_loop mname mmatch ms ext) as [kept|] eqn:Ek; [|destruct Hl].
+  destruct kept as [|k0 kr] eqn:Ekk; [destruct Hl|]. rewrite <- Ekk in *.
+  assert (Hne : kept <> []) by (rewrite Ekk; discriminate).
+  apply in_map_iff in Hl as [sl [El Hs]]. apply filter_In in Hs as [Hs Hsel].
+  exists ext, stored, kept, sl. split; [exact Hb|]. split; [exact Ek|]. split; [exact Hne|]. split; [exact Hs|].
+  split; [exact Hsel|]. split; [symmetry; exact El|].
+  pose proof (Hv _ Hb) as Hve. cbn [fst] in Hve. subst l. rewrite present_bucket_spec in Hf by exact Hve.
+  destruct (in_drop drop n); [discriminate|]. split; [reflexivity|].
+  destruct (lfind ext n); [left; exact Hf | right; split; [reflexivity|exact Hf]].
+Qed.
+
+Theorem names_cover_bucket blocks drop ms l n v :
+  (forall b, In b blocks -> valid_ext (fst b)) ->
+  In l (bucket_series_labels blocks drop ms) -> lfind l n = Some v ->
+  In n (bucket_label_names blocks drop ms).
+Proof.
+  intros Hv H Hf.
+  destruct (bucket_label_cases _ _ _ _ _ _ Hv H Hf) as (ext & stored & kept & sl & Hb & Ek & Hne & Hs & Hsel & El & Hd & Hc).
+  unfold bucket_label_names. apply in_merge_slices. exists (block_names drop ms (ext, stored)).
+  split; [apply (in_map (block_names drop ms)); exact Hb|].
+  unfold block_names. cbn [fst snd]. rewrite Ek. destruct kept as [|k0 kr]; [exfalso; apply Hne; reflexivity|].
+  apply in_sset. apply in_concat. exists (map fst l). split.
+  - apply in_map_iff. exists sl. split; [rewrite El; reflexivity|]. apply filter_In. split; [exact Hs | exact Hsel].
+  - apply lfind_some_in in Hf. apply in_map_iff. exists (n, v). split; [reflexivity | exact Hf].
+Qed.
+
+Theorem values_cover_bucket hne blocks drop ms label l v :
+  (forall b, In b blocks -> valid_ext (fst b)) ->
+  (forall b, In b blocks -> stored_vals_ok (snd b)) ->
+  In l (bucket_series_labels blocks drop ms) -> lfind l label = Some v ->
+  In v (bucket_label_values hne blocks drop ms label).
+Proof.
+  intros Hv Hsv H Hf.
+  destruct (bucket_label_cases _ _ _ _ _ _ Hv H Hf) as (ext & stored & kept & sl & Hb & Ek & Hne & Hs & Hsel & El & Hd & Hc).
+  pose proof (Hv _ Hb) as Hve. cbn [fst] in Hve.
+  unfold bucket_label_values. rewrite in_drop_flip, Hd. apply in_merge_slices.
+  exists (block_values hne ms label (ext, stored)). split; [apply (in_map (block_values hne ms label)); exact Hb|].
+  unfold block_values. cbn [fst snd]. rewrite Ek. destruct kept as [|k0 kr] eqn:Ekk; [exfalso; apply Hne; reflexivity|]. rewrite <- Ekk in *.
+  (* the value the block shows for this series under [label]: the external one, else the stored one *)
+  assert (Hval : lget (extend sl ext) label = v /\ is_empty_str v = false
+                 /\ (lhas ext label = false -> is_empty_str (lget sl label) = false)).
+  { unfold lget, lhas. rewrite lfind_extend by exact Hve. destruct Hc as [Hc|[Hn Hc]].
+    - rewrite Hc. split; [reflexivity|]. split; [|discriminate].
+      destruct Hve as [_ Hnev]. exact (Hnev _ (lfind_some_in _ _ _ Hc)).
+    - rewrite Hn, Hc. split; [reflexivity|]. pose proof (Hsv _ Hb sl label v Hs Hc) as E. split; [exact E | intros _; exact E]. }
+  destruct Hval as (V1 & V2 & V3).
+  apply in_sset. apply in_concat. exists [v]. split; [|left; reflexivity].
+  apply in_map_iff. exists sl. split; [rewrite V1, V2; reflexivity|].
+  apply filter_In. split; [exact Hs|]. rewrite Hsel. cbn [andb].
+  destruct (negb hne && negb (lhas ext label)) eqn:Ex; [|reflexivity]. cbn [negb orb].
+  apply andb_true_iff in Ex as [_ Ex]. apply negb_true_iff in Ex. rewrite (V3 Ex). reflexivity.
+Qed.
+
+(* the proxy in front of a bucket store: when it returns series, the store was queried *)
+Theorem names_cover_bucket_proxy blocks drop ms hne label ls l n v :
+  (forall b, In b blocks -> valid_ext (fst b)) ->
+  o_series (model_bucket_proxy blocks drop ms hne label) = Some ls -> In l ls -> lfind l n = Some v ->
+  In n (o_names (model_bucket_proxy blocks drop ms hne label)).
+Proof.
+  intros Hv Hs Hl Hf. unfold model_bucket_proxy in *. destruct (bucket_queried blocks ms); cbn [o_series o_names] in *.
+  - destruct ms as [|m0 mr] eqn:Em; [discriminate|]. rewrite <- Em in *. assert (ls = lsort_set (bucket_series_labels blocks drop ms)) by (destruct ms; [discriminate | inversion Hs; reflexivity]).
+    subst ls. apply in_lsort_set in Hl. eapply names_cover_bucket; eauto.
+  - destruct ms; [discriminate|]. inversion Hs; subst. destruct Hl.
+Qed.
+
+Theorem values_cover_bucket_proxy blocks drop ms hne label ls l v :
+  (forall b, In b blocks -> valid_ext (fst b)) ->
+  (forall b, In b blocks -> stored_vals_ok (snd b)) ->
+  o_series (model_bucket_proxy blocks drop ms hne label) = Some ls -> In l ls -> lfind l label = Some v ->
+  In v (o_values (model_bucket_proxy blocks drop ms hne label)).
+Proof.
+  intros Hv Hsv Hs Hl Hf. unfold model_bucket_proxy in *. destruct (bucket_queried blocks ms); cbn [o_series o_values] in *.
+  - destruct ms as [|m0 mr] eqn:Em; [discriminate|]. rewrite <- Em in *. assert (ls = lsort_set (bucket_series_labels blocks drop ms)) by (destruct ms; [discriminate | inversion Hs; reflexivity]).
+    subst ls. apply in_lsort_set in Hl. eapply values_cover_bucket; eauto.
+  - destruct ms; [discriminate|]. inversion Hs; subst. destruct Hl.
+Qed.
